@@ -14,7 +14,7 @@
   SE / AV are shared with C02 (sections print each group once) and C08 (average census).
 """
 from .common import *   # noqa: F401,F403
-from . import reader, cfg, C02, C08, C14
+from . import reader, cfg, C02, C08, C11, C14
 from pyvc.core import Builtin
 
 GM = 'propka.group.'
@@ -282,7 +282,12 @@ def run(pr, repo):
     ground(pr, repo)
     tasks = [(task_reader, (t,)) for t in reader.TAGS] + [(task_classify, ()), (task_setup, ()), (task_extract, ()),
                                                            (C02.task_sections, ()), (C08.task_average_twins, ()),
-                                                           (C08.task_average, (2,)), (C14.task_init_group, ()), (C14.task_parse, ())]
+                                                           (C08.task_average, (2,)), (C14.task_init_group, ()), (C14.task_parse, ()),
+                                                           # titrate-only matching reads chain/number/icode of COPIED atoms too
+                                                           (C14.task_make_copy, ()),
+                                                           # 'a cysteine in a disulfide bridge is reported as 99.99': every S-S
+                                                           # pair within bonding distance is found, wherever it lies in the cell grid
+                                                           (C11.task_cell_lemma, ()), (C11.task_boxes_pair, ('S', 'S', False, (0,)))]
     pr.parallel(tasks)
     pr.assumptions += ['stutter/simulation rule lifts the per-record automaton to whole files; atom-name classes as listed in '
                        'props/reader.py', 'composition step "nothing else is reported" (bounded census monitor)',
